@@ -197,9 +197,75 @@ func ackClass(got, want []string) string {
 	return "wrong-ack"
 }
 
+// c04Burst: n QoS 2 flows are opened in lock step, then all PUBRELs (or QoS 1 publishes)
+// arrive in one burst while the client does not read: the acknowledgements pile up behind
+// a full socket and a full outbound channel; once the client reads again every PUBREL
+// must have its PUBCOMP (every QoS 1 PUBLISH its PUBACK), each exactly once.
+func c04Burst(c *explore.Ctx, version byte, n int, kind string) {
+	cas := func() any { return map[string]any{"part": "burst", "version": version, "flows": n, "kind": kind} }
+	c.Count("executions", 1)
+	execBody(c, "C04", cas, func() {
+		w := harness.NewWorld(harness.DefaultConfig(), server.Hooks{})
+		if w.InitErr != nil {
+			c.Fatal("init: %v", w.InitErr)
+			return
+		}
+		p := w.DialCap("P", 64)
+		if ack := p.Connect(harness.ConnectOpts{ClientID: "p", Clean: true, Version: version}); ack == nil || ack.Code != 0 {
+			c.Fatal("C04 burst: connect failed")
+			return
+		}
+		var burst []byte
+		wantT := byte(refmqtt.PUBCOMP)
+		for i := 1; i <= n; i++ {
+			if kind == "pubrel" {
+				p.Send(&refmqtt.Packet{Type: refmqtt.PUBLISH, Topic: "t", QoS: 2, PacketID: uint16(i), Payload: []byte("x")})
+				vsched.Settle()
+				if stampOf(p, refmqtt.PUBREC, uint16(i)) == 0 {
+					c.Violate("acks", "missing-pubrec-in-lock-step", cas(), fmt.Sprintf("PUBREC(%d)", i), "none")
+					return
+				}
+				pk := &refmqtt.Packet{Type: refmqtt.PUBREL, PacketID: uint16(i), Version: version}
+				burst = append(burst, refmqtt.Encode(pk)...)
+			} else {
+				wantT = refmqtt.PUBACK
+				pk := &refmqtt.Packet{Type: refmqtt.PUBLISH, Topic: "t", QoS: 1, PacketID: uint16(i), Payload: []byte("x"), Version: version}
+				burst = append(burst, refmqtt.Encode(pk)...)
+			}
+		}
+		p.Recv() // everything so far has been looked at
+		// the client writes the whole burst without reading (its writes block once the broker,
+		// whose replies it does not take, stops reading), and only then reads again
+		written := false
+		vsched.Go("client-burst", func() { p.SendRaw(burst); written = true })
+		vsched.Settle()
+		got := map[uint16]int{}
+		for round := 0; round < 8*n+20; round++ {
+			rs := p.Recv()
+			if len(rs) == 0 && written {
+				break
+			}
+			for _, r := range rs {
+				if r.P != nil && r.P.Type == wantT {
+					got[r.P.PacketID]++
+				}
+			}
+			vsched.Settle()
+		}
+		for i := 1; i <= n; i++ {
+			if got[uint16(i)] != 1 {
+				cl := fmt.Sprintf("burst-%s-answered-%d-times", kind, got[uint16(i)])
+				c.Violate("acks", cl, cas(), fmt.Sprintf("one %s per id 1..%d", refmqtt.TypeNames[wantT], n), fmt.Sprint(got, " closed=", p.ClosedByBroker(), w.Closeds))
+				return
+			}
+		}
+		swallowedPanic(c, w, cas)
+	})
+}
+
 func runC04(c *explore.Ctx) {
 	c.Level = "model_checking"
-	c.Rule = "E2: every sequence of publisher events (QoS2 publish id1/id2, DUP retransmission, PUBREL, QoS1 publish, cut+reconnect clean 0/1, take-over) up to the depth, for a v5 and a v3.1.1 publisher (and, one level shallower, a v5 publisher announcing Receive Maximum 1 itself), executed on a fresh in-process broker under the cooperative scheduler; after every event the acks on the publisher socket and the payloads forwarded to an independent QoS0 subscriber are compared with a reference 'awaiting PUBREL' set. states = distinct valid event prefixes, transitions = events applied."
+	c.Rule = "E2: every sequence of publisher events (QoS2 publish id1/id2, DUP retransmission, PUBREL, QoS1 publish, cut+reconnect clean 0/1, take-over) up to the depth, for a v5 and a v3.1.1 publisher (and, one level shallower, a v5 publisher announcing Receive Maximum 1 itself), executed on a fresh in-process broker under the cooperative scheduler; after every event the acks on the publisher socket and the payloads forwarded to an independent QoS0 subscriber are compared with a reference 'awaiting PUBREL' set. Burst part: 12/30/45 QoS 2 flows opened in lock step, then all PUBRELs (or as many QoS 1 publishes) sent in one burst to a broker whose replies pile up behind a full socket and outbound channel (the client does not read): afterwards every PUBREL has exactly one PUBCOMP, every QoS 1 PUBLISH one PUBACK. states = distinct valid event prefixes, transitions = events applied."
 	c.Trusted = []string{"vsched scheduler semantics (default schedule, 0 deviations)", "refmqtt codec"}
 	if rc := replayCase(c); rc != nil {
 		prm, _ := rc["publisher_receive_maximum"].(float64)
@@ -214,6 +280,14 @@ func runC04(c *explore.Ctx) {
 	c.Extra["alphabet"] = c04Events
 	// a v5 publisher that announces a small Receive Maximum of its own: that value limits
 	// what the broker sends to it and must not limit what it may send
+	if !c.IsWorker() {
+		for _, v := range []byte{refmqtt.V5, refmqtt.V311} {
+			for _, n := range []int{12, 30, 45} {
+				c04Burst(c, v, n, "pubrel")
+				c04Burst(c, v, n, "qos1")
+			}
+		}
+	}
 	treeUnits(c, "tree-v5-publisher-recvmax1", len(c04Events), depth-1, func(seq []int) int {
 		return c04Run(c, refmqtt.V5, seq, 1)
 	})
